@@ -27,6 +27,12 @@ pub fn rerun_hx(cfg: &HxCfg, history: &[Op], at: &str, aux: Option<&Vec<Op>>) ->
         for (i, op) in history.iter().enumerate() {
             let (_, f) = hx::step(&cfg.labels, &mut g, &mut m, op);
             if at == "transition" && i == last {
+                let mut f = f;
+                if !cfg.probes.lockstep.is_empty() || cfg.probes.rerun > 0 {
+                    let h = history.to_vec();
+                    let mut counters = Default::default();
+                    crate::probes::lockstep_probe::<N>(cfg, &|| h.clone(), &mut f, &mut counters);
+                }
                 return Ok(f);
             }
             if !f.is_empty() {
@@ -37,6 +43,9 @@ pub fn rerun_hx(cfg: &HxCfg, history: &[Op], at: &str, aux: Option<&Vec<Op>>) ->
         if cfg.probes.drain {
             fs.extend(drain_probe(&g, &m, false));
             fs.extend(drain_probe(&g, &m, true));
+        }
+        if let Some(f) = hx::clone_exactness_finding(&g) {
+            fs.push(f);
         }
         let h = history.to_vec();
         let mut runs = 0;
